@@ -450,6 +450,11 @@ func getTypeConverter(typ reflect.Type) (TypeConverter, error) {
 	return converter, nil
 }
 
+// intRangeError reports a script int that does not fit the Go integer kind.
+func intRangeError(v int64, kind string) error {
+	return errz.TypeErrorf("type error: %d is out of range for %s", v, kind)
+}
+
 // BoolConverter converts between bool and *Bool.
 type BoolConverter struct{}
 
@@ -473,6 +478,9 @@ func (c *ByteConverter) To(obj Object) (interface{}, error) {
 	case *Byte:
 		return obj.value, nil
 	case *Int:
+		if obj.value < 0 || obj.value > 1<<8-1 {
+			return nil, intRangeError(obj.value, "byte")
+		}
 		return byte(obj.value), nil
 	case *Float:
 		return byte(obj.value), nil
@@ -535,6 +543,9 @@ func (c *Int8Converter) To(obj Object) (interface{}, error) {
 	case *Byte:
 		return int8(obj.value), nil
 	case *Int:
+		if obj.value < -1<<7 || obj.value > 1<<7-1 {
+			return nil, intRangeError(obj.value, "int8")
+		}
 		return int8(obj.value), nil
 	case *Float:
 		return int8(obj.value), nil
@@ -555,6 +566,9 @@ func (c *Int16Converter) To(obj Object) (interface{}, error) {
 	case *Byte:
 		return int16(obj.value), nil
 	case *Int:
+		if obj.value < -1<<15 || obj.value > 1<<15-1 {
+			return nil, intRangeError(obj.value, "int16")
+		}
 		return int16(obj.value), nil
 	case *Float:
 		return int16(obj.value), nil
@@ -575,6 +589,9 @@ func (c *Int32Converter) To(obj Object) (interface{}, error) {
 	case *Byte:
 		return int32(obj.value), nil
 	case *Int:
+		if obj.value < -1<<31 || obj.value > 1<<31-1 {
+			return nil, intRangeError(obj.value, "int32")
+		}
 		return int32(obj.value), nil
 	case *Float:
 		return int32(obj.value), nil
@@ -615,6 +632,9 @@ func (c *UintConverter) To(obj Object) (interface{}, error) {
 	case *Byte:
 		return uint(obj.value), nil
 	case *Int:
+		if obj.value < 0 {
+			return nil, intRangeError(obj.value, "uint")
+		}
 		return uint(obj.value), nil
 	case *Float:
 		return uint(obj.value), nil
@@ -638,6 +658,9 @@ func (c *Uint8Converter) To(obj Object) (interface{}, error) {
 	case *Byte:
 		return uint8(obj.value), nil
 	case *Int:
+		if obj.value < 0 || obj.value > 1<<8-1 {
+			return nil, intRangeError(obj.value, "uint8")
+		}
 		return uint8(obj.value), nil
 	case *Float:
 		return uint8(obj.value), nil
@@ -658,6 +681,9 @@ func (c *Uint16Converter) To(obj Object) (interface{}, error) {
 	case *Byte:
 		return uint16(obj.value), nil
 	case *Int:
+		if obj.value < 0 || obj.value > 1<<16-1 {
+			return nil, intRangeError(obj.value, "uint16")
+		}
 		return uint16(obj.value), nil
 	case *Float:
 		return uint16(obj.value), nil
@@ -678,6 +704,9 @@ func (c *Uint32Converter) To(obj Object) (interface{}, error) {
 	case *Byte:
 		return uint32(obj.value), nil
 	case *Int:
+		if obj.value < 0 || obj.value > 1<<32-1 {
+			return nil, intRangeError(obj.value, "uint32")
+		}
 		return uint32(obj.value), nil
 	case *Float:
 		return uint32(obj.value), nil
@@ -698,6 +727,9 @@ func (c *Uint64Converter) To(obj Object) (interface{}, error) {
 	case *Byte:
 		return uint64(obj.value), nil
 	case *Int:
+		if obj.value < 0 {
+			return nil, intRangeError(obj.value, "uint64")
+		}
 		return uint64(obj.value), nil
 	case *Float:
 		return uint64(obj.value), nil
